@@ -113,7 +113,27 @@ Theorem fixed_never_raises : forall fx v f, fx_bound fx = true -> contig v -> 0 
   exists fv, feature_on_view fx v f = Ok fv.
 Proof. exact fixed_never_raises_lemma. Qed.
 
-(** ... the pinned code does: CTAGAGT, rc()[4:5].rc(), feature [(0,2),(3,4),(6,7)],
+(** more precisely, for either variant: no raise unless a span of the feature
+    ends exactly at the absolute coordinate where the displayed segment starts ... *)
+Theorem never_raises_unless_boundary : forall fx v f, contig v -> 0 < vlen v -> feat_ok f ->
+  fx_bound fx = true \/ no_span_ends_at (parent_start v) (f_spans f) ->
+  exists fv, feature_on_view fx v f = Ok fv.
+Proof. exact never_raises_lemma. Qed.
+
+(** ... and the pinned code raises (ValueError) exactly in that case: whenever
+    the feature has a span [a, b) with b = parent_start of the view - e.g. any
+    exon ending where a slice begins *)
+Theorem pinned_raises_only_at_boundary : forall v f e, contig v -> 0 < vlen v -> feat_ok f ->
+  feature_on_view pinned v f = Err e ->
+  exists a b, In (a, b) (f_spans f) /\ b = parent_start v.
+Proof. exact pinned_raises_only_at_boundary_lemma. Qed.
+
+Theorem pinned_raises_at_boundary : forall v f a b, contig v -> 0 < vlen v -> feat_ok f ->
+  In (a, b) (f_spans f) -> b = parent_start v ->
+  feature_on_view pinned v f = Err E_Value.
+Proof. exact pinned_raises_at_boundary_lemma. Qed.
+
+(** the witness found by the design probe: CTAGAGT, rc()[4:5].rc(), feature [(0,2),(3,4),(6,7)],
     allow_partial=True raises ValueError (finding C04-F1) *)
 Theorem make_feature_raises_refuted :
   exists v f, contig v /\ 0 < vlen v /\ feat_ok f /\
